@@ -1,7 +1,7 @@
 (* C04 — the assembler accepts exactly the programs whose operands fit. *)
 From Coq Require Import ZArith List.
 Import ListNotations.
-From Lace Require AsmAccept AsmLayout AsmOrig.
+From Lace Require AsmAccept AsmLayout AsmOrig AsmProgram.
 From Lace Require Import Word Machine Isa Asm AsmProofs.
 Open Scope N_scope.
 
@@ -116,3 +116,55 @@ Theorem C04_orig_kept : forall fuel n ps o, a_orig (p_air ps) = Some o ->
   end.
 Proof. exact AsmOrig.parse_keeps_orig. Qed.
 Print Assumptions C04_orig_kept.
+
+(** PROGRAM level, as one equivalence (AsmProgram.v).  [prog_ok] walks the preprocessed tokens once and
+    decides: every statement head is followed by operands that fit its row of the operand table
+    (and nothing else starts a statement); a label is defined at most once — the inherited table
+    counts — and stands in front of a statement, a `.break` or an `.orig`, not in front of another
+    label or the end of the file; `.orig` occurs at most once; fewer than 65,535 statements.
+    The parser accepts iff [prog_ok] says so ... *)
+Theorem C04_program_parse : forall fuel n ps, (length (p_toks ps) < fuel)%nat ->
+  AsmProgram.acc (parse fuel n ps) =
+  AsmProgram.prog_ok 0 (p_toks ps) false (p_line ps) (p_sym ps) (AsmProgram.is_some (a_orig (p_air ps))).
+Proof. exact AsmProgram.parse_acc. Qed.
+Print Assumptions C04_program_parse.
+
+(** ... what the parser accepted is emitted iff every referenced label is defined and every
+    PC-relative distance fits its field ([line_ok]; the distance condition in numbers is
+    C04_offset_iff) ... *)
+Theorem C04_program_emit : forall sym ls,
+  match backpatch sym ls with
+  | Ok ls' => AsmProgram.is_ok (emit_all ls') = forallb (AsmProgram.line_ok sym) ls
+  | Err _ _ _ => forallb (AsmProgram.line_ok sym) ls = false
+  | Bad _ => False
+  end.
+Proof. exact AsmProgram.emit_acc. Qed.
+Print Assumptions C04_program_emit.
+
+(** ... and so for the assembler as a whole: a source is accepted iff its tokens form a well-formed
+    program and every reference of the parsed statements is defined and within reach. *)
+Theorem C04_program_iff : forall feat sym0 src toks,
+  preprocess feat (S (length src)) src 0 nil = Ok toks ->
+  AsmProgram.acc (assemble feat sym0 src) =
+  AsmProgram.prog_ok 0 toks false 1 sym0 false &&
+  match parse (S (length toks)) (bytes src) (mkParser toks (mkAir None nil nil) 1 0 sym0 0) with
+  | (Ok (a, _), sym1) => forallb (AsmProgram.line_ok sym1) (a_ast a)
+  | _ => false
+  end.
+Proof. exact AsmProgram.assemble_acc. Qed.
+Print Assumptions C04_program_iff.
+
+(** Non-vacuity: one accepted program using every statement kind, and one rejected program for each
+    reason (label defined twice, `.orig` twice, operand out of range, label in front of the end of
+    the file, two labels in a row; well-formed but a reference undefined / out of reach). *)
+Example C04_program_nonvacuous :
+  AsmProgram.prog_ok 0 (AsmProgram.toks_of AsmProgram.ex_prog_ok) false 1 nil false = true /\
+  AsmProgram.acc (assemble true nil AsmProgram.ex_prog_ok) = true /\
+  AsmProgram.prog_ok 0 (AsmProgram.toks_of AsmProgram.ex_prog_dup) false 1 nil false = false /\
+  AsmProgram.prog_ok 0 (AsmProgram.toks_of AsmProgram.ex_prog_orig2) false 1 nil false = false /\
+  AsmProgram.prog_ok 0 (AsmProgram.toks_of AsmProgram.ex_prog_range) false 1 nil false = false /\
+  AsmProgram.prog_ok 0 (AsmProgram.toks_of AsmProgram.ex_prog_dangling) false 1 nil false = false /\
+  AsmProgram.prog_ok 0 (AsmProgram.toks_of AsmProgram.ex_prog_labels) false 1 nil false = false /\
+  AsmProgram.acc (assemble true nil AsmProgram.ex_prog_dup) = false /\
+  AsmProgram.acc (assemble true nil AsmProgram.ex_prog_labels) = false.
+Proof. exact AsmProgram.ex_prog_verdicts. Qed.
